@@ -225,6 +225,13 @@ loop:
 					if spec.Q < 0.0 {
 						continue loop
 					}
+					s = skipSpace(s)
+					if strings.HasPrefix(s, ";") {
+						// extension parameters after the weight are ignored
+						for s != "" && !strings.HasPrefix(s, ",") {
+							s = s[1:]
+						}
+					}
 				}
 			}
 
